@@ -76,3 +76,12 @@ Check C10_step_never_clears_cell : forall mb c r c', ck_total c <= USIZE_MAX_R -
   | None => ck_cell c' = ck_cell c \/ exists k, ck_cell c' = Some k
   end.
 Print Assumptions C10_step_never_clears_cell.
+
+(* The input-size cap is an invariant of the whole run on EVERY schedule (faulty or not, any
+   partition): the byte count the iterator keeps never exceeds the cap, however long it runs. *)
+Theorem C10_cap_is_run_invariant : forall fuel lim c acc out c', lim <= USIZE_MAX_R -> ck_total c <= lim ->
+  chunked_all fuel (Some lim) c acc = (out, c') -> ck_total c' <= lim.
+Proof. exact run_cap_inv. Qed.
+Check C10_cap_is_run_invariant : forall fuel lim c acc out c', lim <= USIZE_MAX_R -> ck_total c <= lim ->
+  chunked_all fuel (Some lim) c acc = (out, c') -> ck_total c' <= lim.
+Print Assumptions C10_cap_is_run_invariant.
